@@ -1,9 +1,11 @@
 import PV.Driver.HT
 import PV.Driver.SB
 import PV.Driver.Tree
+import PV.Driver.IPC
 def main (args : List String) : IO UInt32 := do
   match args with
   | ["ht"] => PV.Driver.HT.run; return 0
   | ["sb"] => PV.Driver.SB.run; return 0
   | ["tree"] => PV.Driver.Tree.run; return 0
+  | ["ipc"] => PV.Driver.IPC.run; return 0
   | _ => IO.eprintln "usage: pvdriver <family>  (ops on stdin)"; return 2
